@@ -106,6 +106,8 @@ func (rn *runner) raceLogGrowth() string {
 	if rn.raceLog == "" {
 		return ""
 	}
+	rn.mu.Lock()
+	defer rn.mu.Unlock()
 	files, _ := filepath.Glob(rn.raceLog + ".*")
 	var sb strings.Builder
 	for _, f := range files {
@@ -141,11 +143,10 @@ func (rn *runner) bigOne(spec BigSpec, report bool) []failure {
 	var fails []failure
 	m := spec.mod()
 	td := &TestDir{Mods: []Mod{m}, Clean: true}
-	rn.ndir++
-	root := filepath.Join(rn.f.Work, fmt.Sprintf("big%05d", rn.ndir))
+	root := filepath.Join(rn.f.Work, fmt.Sprintf("big%05d", rn.nextDir()))
 	defer os.RemoveAll(root)
 	if err := td.materialise(root); err != nil {
-		rn.res.Notes = append(rn.res.Notes, "big module could not be written: "+err.Error())
+		rn.note("big module could not be written: " + err.Error())
 		return nil
 	}
 	wantInfo, _ := m.file(".info")
@@ -190,13 +191,13 @@ func (rn *runner) bigOne(spec BigSpec, report bool) []failure {
 		close(start)
 		wg.Wait()
 		srv.Close()
-		tBig += time.Since(t0)
+		addT(&tBig, time.Since(t0))
 		var zipSum [32]byte
 		zipChecked := false
 		for i := 0; i < n; i++ {
 			if report {
-				rn.res.Count("big-concurrent-request:" + exts[i])
-				rn.res.Case(fmt.Sprintf("big|%s|%d|%d", spec.Layout, round, i), true)
+				rn.count("big-concurrent-request:" + exts[i])
+				rn.caseOf(fmt.Sprintf("big|%s|%d|%d", spec.Layout, round, i), true)
 			}
 			o := out[i]
 			msg := ""
@@ -242,25 +243,39 @@ func (rn *runner) bigOne(spec BigSpec, report bool) []failure {
 var tBig time.Duration
 
 func (rn *runner) bigPhase(seed uint64, tier string) {
-	specs := bigSpecsQuick
+	specs := append([]BigSpec{}, bigSpecsQuick...)
 	if tier == "thorough" {
-		specs = bigSpecsThorough
+		specs = append([]BigSpec{}, bigSpecsThorough...)
 	}
 	r := common.NewRNG(seed ^ 0xb16b16)
-	for _, sp := range specs {
-		sp.Seed = r.Uint64()
-		rn.res.Count("src:big-" + sp.Layout)
-		before := tBig
-		for _, fl := range rn.bigOne(sp, true) {
+	// the modules run side by side (they compete for the CPU, which only widens the windows);
+	// failures are reported afterwards in the order of the specs
+	results := make([][]failure, len(specs))
+	took := make([]time.Duration, len(specs))
+	var wg sync.WaitGroup
+	for i := range specs {
+		specs[i].Seed = r.Uint64()
+		rn.count("src:big-" + specs[i].Layout)
+		wg.Add(1)
+		go func(i int) {
+			defer wg.Done()
+			t0 := time.Now()
+			results[i] = rn.bigOne(specs[i], true)
+			took[i] = time.Since(t0)
+		}(i)
+	}
+	wg.Wait()
+	for i, sp := range specs {
+		for _, fl := range results[i] {
 			rn.violateBig(sp, fl)
 		}
-		rn.res.Notes = append(rn.res.Notes, fmt.Sprintf("big module %s layout, %d files x %d bytes: %d rounds of concurrent first requests took %.1fs", sp.Layout, sp.NFiles, sp.FSize, sp.Rounds, (tBig-before).Seconds()))
+		rn.note(fmt.Sprintf("big module %s layout, %d files x %d bytes: %d rounds of concurrent first requests took %.1fs (all big modules side by side)", sp.Layout, sp.NFiles, sp.FSize, sp.Rounds, took[i].Seconds()))
 	}
 }
 
 func (rn *runner) violateBig(sp BigSpec, fl failure) {
 	td := &TestDir{Clean: true, Big: &sp}
-	rn.res.Count("failure:" + fl.kind + ":" + fl.oracle)
+	rn.count("failure:" + fl.kind + ":" + fl.oracle)
 	rn.res.Violate(common.Violation{Kind: fl.kind, Oracle: fl.oracle,
 		Input: map[string]string{"dir": tdJSON(td), "url": fl.url, "url_text": fmt.Sprintf("%q", fl.url), "class": "big"},
 		Impl:  fl.impl, Detail: fl.detail, Key: fl.oracle + ":" + sp.Layout})
